@@ -9,7 +9,8 @@ here="$(cd "$(dirname "$0")/.." && pwd)"
 : > "$out"
 for id in "$@"; do
   for d in "$here"/seeded/$id-*/; do
-    rc=$("$here"/tools/mutcheck.sh "$d/patch.diff" "$id" 2>&1 | grep -o "rc=[0-9]*" | head -1)
+    chk=$(python3 -c "import json,sys; print(json.load(open(sys.argv[1])).get('regress_check') or sys.argv[2])" "$d/meta.json" "$id")   # (one change is owned by another property's check)
+    rc=$("$here"/tools/mutcheck.sh "$d/patch.diff" "$chk" 2>&1 | grep -o "rc=[0-9]*" | head -1)
     echo "$(basename $d) $rc" >> "$out"
   done
 done
